@@ -378,7 +378,7 @@ func c04R3(c *Ctx) {
 		n := 0
 		for _, call := range stateCalls(c, rel) {
 			f := Callee(rel.Info(), call)
-			if methodOn(p, f, modPath+"/pkg/eni", "Manager", "Release") || (f != nil && f.Name() == "deletePodResource") {
+			if methodOn(p, f, modPath+"/pkg/eni", "Manager", "Release") || isRecordDelete(p, rel.Info(), call) {
 				n++
 				c.Require("C04.R3", "ReleaseIP: "+calleeName(rel.Info(), call)+" behind the container-ID guard", rel, call, guard, map[string]string{"$old": name, "$r": reqParam(rel)})
 			}
